@@ -11,3 +11,6 @@ import EmuVerif.Props.C02
 #print axioms EmuVerif.Props.C02.installed_relabelled
 #print axioms EmuVerif.Props.C02.repaired_relabelled
 #print axioms EmuVerif.Props.C02.asFound_counterexample
+#print axioms EmuVerif.Props.C02.installedString_relabelled
+#print axioms EmuVerif.Props.C02.same_map
+#print axioms EmuVerif.Props.C02.inverse_state_counterexample
